@@ -834,6 +834,10 @@ func (en *Engine) load(st *State, addr Val, t types.Type) Val {
 			return zeroOf(t)
 		}
 	}
+	// sentinel errors of dependencies (dsig.ErrMissingSignature, io.EOF, ...) are never reassigned: one value per path
+	if g, ok := addr.(*GlobalV); ok && g.G != nil && g.G.Pkg != nil && !strings.HasPrefix(g.G.Pkg.Pkg.Path(), modPath) && typeStr(t) == "error" {
+		return mkLoad(addr, 0, t)
+	}
 	root := rootOf(addr)
 	ep := st.dirty[root.Key()]
 	if d2, ok := st.dirty[db.Key()]; ok && d2 > ep {
@@ -1458,6 +1462,11 @@ func nonNilByConstruction(v Val) bool {
 		return true
 	case *CallV:
 		return contractNonNil(x)
+	case *LoadV:
+		// sentinel error variables of dependencies: initialised with errors.New, never reassigned (trusted base)
+		if g, ok := x.Addr.(*GlobalV); ok && g.G != nil && g.G.Pkg != nil && !strings.HasPrefix(g.G.Pkg.Pkg.Path(), modPath) && typeStr(x.Type()) == "error" {
+			return true
+		}
 	case *AppendV:
 		return len(x.Elems) > 0 && !x.Spread
 	case *MapV:
